@@ -153,8 +153,39 @@ def install(world):
     def b_zip(it, node, *xs):
         if xs and all(isinstance(x, SVal) for x in xs):
             return _zip_uf[0](it, node, *xs)    # opaque iterables: T-lazy
-        sps = [world.iter_spec(x, it) for x in xs]
         from .world import IterSpec
+        inf = [x for x in xs if isinstance(x, InfSeq)]
+        fin = [x for x in xs if not isinstance(x, InfSeq)]
+        if inf and fin:
+            # endless operands (itertools.count ...) do not bound the zip
+            fsp = [world.iter_spec(x, it) for x in fin]
+            n = fsp[0].length
+            for sp in fsp[1:]:
+                a, b = n, sp.length
+                if isinstance(a, int) and isinstance(b, int):
+                    n = min(a, b)
+                else:
+                    a = a if z3.is_expr(a) else z3.IntVal(a)
+                    b = b if z3.is_expr(b) else z3.IntVal(b)
+                    n = z3.If(a < b, a, b)
+            finite = iter(fsp)
+
+            def item(k, xs=xs, fsp=fsp):
+                out, j = [], 0
+                for x in xs:
+                    if isinstance(x, InfSeq):
+                        out.append(x.item(it, k, node))
+                    else:
+                        out.append(fsp[j].item(k))
+                        j += 1
+                return tuple(out)
+            sp = IterSpec(n, item)
+            srcs = [f.source for f in fsp if getattr(f, 'consume', None)]
+            cons = [f.consume for f in fsp if getattr(f, 'consume', None)]
+            if cons:
+                sp.consume = lambda m: [c(m) for c in cons]
+            return sp
+        sps = [world.iter_spec(x, it) for x in xs]
         n = sps[0].length
         for sp in sps[1:]:
             a, b = n, sp.length
@@ -729,6 +760,10 @@ def install(world):
                                                True)
 
     def b_map(it, node, fn, *xs):
+        if len(xs) == 1 and isinstance(xs[0], InfSeq):
+            src = xs[0]
+            return InfSeq(lambda it2, k, nd: it2.call(
+                fn, [src.item(it2, k, nd)], {}, nd))
         if len(xs) == 1 and isinstance(xs[0], S.SIter):
             # a lazy view over a one-shot iterator: the element-wise image
             # of what is left of it; pulling the view pulls the parent
@@ -780,7 +815,27 @@ def install(world):
             it.calls.append((sym, tuple(a) + extra, r))
             return r
         return f
-    for nm in ('takewhile', 'dropwhile', 'cycle', 'repeat', 'count',
+    def it_count(it, node, start=0, step=1):
+        # itertools.count: the endless arithmetic progression (as a value:
+        # the uninterpreted term it always was, logged like the other lazy
+        # constructors)
+        world.trusted_used.add('itertools.count (T-lazy, uninterpreted)')
+        r = apply_uf('itertools.count', (start, step) if step != 1 or True
+                     else (start,), 'Val')
+
+        def item(it2, k, nd):
+            kk = k if z3.is_expr(k) else None
+            if kk is None and not S.is_sym(start) and not S.is_sym(step):
+                return start + k * step
+            return SInt(TInt.unwrap(start) + (k if z3.is_expr(k) else
+                                              z3.IntVal(k)) *
+                        TInt.unwrap(step))
+        seq = InfSeq(item, r)
+        it.calls.append(('itertools.count', (start, step), r))
+        return seq
+    world.lib[('itertools', 'count')] = Model('itertools.count', it_count,
+                                              True)
+    for nm in ('takewhile', 'dropwhile', 'cycle', 'repeat',
                'zip_longest'):
         world.lib[('itertools', nm)] = Model('itertools.' + nm,
                                              lazy_uf('itertools.' + nm), True)
@@ -1048,6 +1103,15 @@ def str_method(world, o, name, args, kw, it, node):
         for a, rest in zip(args, pieces[1:]):
             t = z3.Concat(t, TStr.unwrap(a), z3.StringVal(rest))
         return SStr(z3.simplify(t))
+    if name == 'encode':
+        # T-conv: str.encode(codec[, errors]) gives opaque bytes or raises
+        # UnicodeEncodeError
+        world.trusted_used.add('T-conv: str.encode() returns bytes or '
+                               'raises UnicodeEncodeError')
+        bad = z3.Bool(S.fresh_name('unencodable'))
+        if it.branch(bad):
+            it.raise_('UnicodeEncodeError', node=node)
+        return apply_uf('str.encode', (o,) + tuple(args), 'Val')
     if name == 'format':
         # message formatting: an opaque string of template and arguments
         world.trusted_used.add('str.format (uninterpreted)')
@@ -1281,6 +1345,18 @@ def _stable_sort(items, key, reverse, it, node):
     return [x for _, x in pairs]
 
 
+class InfSeq:
+    """An endless lazy sequence given by its k-th item."""
+
+    def __init__(self, item, val=None):
+        self.item, self.val = item, val
+
+    def as_val(self):
+        if self.val is None:
+            raise Unsupported('endless sequence as a value')
+        return self.val.t
+
+
 def seq_method(world, o, name, args, kw, it, node):
     if isinstance(o, list):
         if name == 'append':
@@ -1308,10 +1384,27 @@ def seq_method(world, o, name, args, kw, it, node):
             o[:] = _stable_sort(o, kw.get('key'), kw.get('reverse', False),
                                 it, node)
             return None
-        if name == 'index' or name == 'count':
-            raise Unsupported('list.%s' % name)
-    if isinstance(o, tuple) and name in ('index', 'count'):
-        raise Unsupported('tuple.%s' % name)
+    if isinstance(o, (list, tuple)) and name in ('index', 'count') and \
+            len(args) == 1:
+        # element-wise equality, left to right (forks on symbolic members)
+        hits = 0
+        for i, x in enumerate(o):
+            r = world.eq_model(args[0], x, it) if (
+                S.is_sym(x) or S.is_sym(args[0]) or isinstance(
+                    x, (tuple, list)) or type(x).__name__ == 'ObjVal'
+                or type(args[0]).__name__ == 'ObjVal') else (args[0] == x)
+            if r is NotImplemented:
+                raise Unsupported('%s.%s: equality of %r and %r' % (
+                    type(o).__name__, name, args[0], x))
+            same = r if isinstance(r, bool) else it.branch(
+                S.as_bool_term(r))
+            if same:
+                if name == 'index':
+                    return i
+                hits += 1
+        if name == 'index':
+            it.raise_('ValueError', 'not in list', node=node)
+        return hits
     if isinstance(o, MList):
         if name == 'append':
             o.seq = S.seq_append(o.seq, args[0])
